@@ -313,6 +313,21 @@ def gen(run):
     for w in webp_inputs()[:4]:
         for k in (1, 8, 13):
             yield line_at(k, "webp", None, None, bytes(k) + w, views_for(["s", "sc"], len(w), 8), fsmax), "pre-advanced-webp"
+    # webp files whose lossless stream really decodes pixels (transforms, palettes, meta prefix images with non-trivial codes), through
+    # readers that deliver 1, 2, 3 .. bytes per read: the bit reader's refills are where read chunking meets the validator
+    from props import _c19_vp8l as V
+    import webpgen as WG
+    nll = 0
+    while nll < (6 if quick else 80):
+        W_, H_, body, _ = V.build_lossless(rng, rng.choice(["plain", "deep", "arbdeep"]), pixel_budget=300)
+        if W_ > 16384 or H_ > 16384 or len(body) > 3000:
+            continue
+        nll += 1
+        f = WG.riff(WG.chunk(b"VP8L", WG.vp8l_payload(W_, H_, body)))
+        vs = ["sc/cursor/-/-"] + ["%s/%s/%s/%s" % (e, st, caps, ch) for e in ("s", "sc")
+                                  for st, caps in (("chunk", "-"), ("seek(chunk)", "-"), ("buf(chunk)", "3"), ("dyn(buf(box(chunk)))", "8"))
+                                  for ch in ("1", "2", "3", "1.7.2", "5")]
+        yield line("webp", None, None, f, vs, fsmax), "webp-lossless-chunked"
     # webp
     for w in webp_inputs():
         yield line("webp", None, None, w, views_for(["s", "sc"], len(w)), fsmax), "webp"
